@@ -28,9 +28,10 @@ THEOREMS = [
     "multiword_value_partial", "multiword_zero_window_witness", "multiword_nonfinite_witness", "multiword_maxlength1_witness",
 ]
 SEARCHED = [
-    "the model's hypotheses about the rounding step mpf2float inside mpf2expansion (RSpec: grid, contraction, exact on representables) — checked on the real mpf2float by search; its proof belongs to C15",
-    "multiword words are strictly decreasing in magnitude and at most p bits wide (search only)",
-    "mpf2expansion with base != None and mpf2multiword with max_length (accumulated tail) are exercised by correspondence/search only",
+    "RSpec for the real mpf2float (finite, non-zero, |x-R(x)| < |x|, grid-preserving on in-range grid values): the hypothesis of expansion_value; follows from correct rounding (C15), evaluated here on the real function for every in-range seeded mpf",
+    "multiword words are strictly decreasing in magnitude and at most p bits wide",
+    "mpf2multiword with max_length >= 2 (accumulated tail), mpf2expansion length/functional padding, fraction2float on rationals that are not float values, bin2float on malformed strings, contexts with prec < p: correspondence only (model == code), no property clause",
+    "mpf2expansion with base != None: neither modelled nor exercised",
 ]
 TRUSTED = [
     "Lean 4 kernel; axioms propext, Classical.choice, Quot.sound only",
@@ -554,6 +555,7 @@ def run(ctx):
         fails.extend(r.get("mpf_fails", []))
     ctx.notes["search_failures"] = len(fails)
     fam_of_clause = lambda c: c.split("-")[0]
+    listed = {f_["signature"] for f_ in ctx.findings if f_.get("property") == ctx.prop and f_.get("status") == "known"}
     seen = set()
     for fl in fails:
         sig = fl["signature"]
@@ -561,14 +563,16 @@ def run(ctx):
             continue
         seen.add(sig)
         fam = fam_of_clause(fl["clause"])
-        item = corr_items.get(fam)
-        if item is None and fact_item is not None:
-            item = fact_item
-        if item is None:
-            for bi in broken:  # a broken Lean obligation still lacking a failing input
-                if not bi["has_failing_input"]:
-                    item = bi
-                    break
+        item = None
+        if sig not in listed:  # a listed finding never explains a broken obligation
+            item = corr_items.get(fam)
+            if item is None and fact_item is not None:
+                item = fact_item
+            if item is None:
+                for bi in broken:  # a broken Lean obligation still lacking a failing input
+                    if not bi["has_failing_input"]:
+                        item = bi
+                        break
         kind = "mpf" if "tup" in fl else "float"
         ctx.violation(sig, f"{fl['clause']} fails on the real code: {json.dumps(fl)[:400]}", dict(kind=kind, case=fl), broken_item=item)
     ctx.obligation("search:property clauses on the real code (float16 exhaustive) found nothing unlisted",
@@ -594,16 +598,18 @@ def replay(ctx, obj):
     return 1 if same else 0
 
 
-LEVEL_TEXT = ("Proof. Theorems (Lean kernel; every format with 2 <= ew, 3 <= p, every bit pattern): float2fraction returns exactly the decoded "
-              "value; fraction2float(float2fraction(b)) = b up to the sign of zero; the float2bin string denotes the decoded value and "
-              "bin2float(float2bin(b)) = b for every finite b other than -0, inf and NaN map to themselves; float2mpf yields the normalised "
-              "tuple of the decoded value and mpf2float(float2mpf(b)) = b (b != -0) when the context precision is at least p; expansion2mpf/"
-              "multiword2mpf sum exactly when the partial sums fit the precision; mpf2expansion and mpf2multiword produce words whose exact "
-              "sum is the input and that convert back to it, under the stated range/precision hypotheses. The hand model is tied to the real "
-              "functions by an exhaustive float16 correspondence (65 536 patterns x 7 conversions), directed float32/float64 sweeps and seeded "
-              "mpf values on every run.")
-LEVEL_NOTE = ("Partial where the code violates the clause: -0.0 loses its sign through float2bin and float2mpf; mpf2expansion(nan) does not "
-              "terminate; mpf2multiword maps inf/nan to [] and fails for max_length=1 (known findings with Lean negation witnesses). The "
-              "rounding inside mpf2expansion is a parameter constrained by RSpec (proved for mpf2float by C15, checked here by search). "
-              "Trusted: Lean kernel; numpy scalar semantics; mpmath's kernel as ported (round-to-nearest, exact add then normalise).")
+LEVEL_TEXT = ("Proof. Theorems (Lean kernel; every format with 2 <= ew, 3 <= p <= 2^(ew-1), every bit pattern): float2fraction returns exactly "
+              "the decoded value and fraction2float(float2fraction(b)) = b up to the sign of zero; the float2bin string denotes the decoded value and "
+              "bin2float(float2bin(b)) = b at string level for every finite b other than -0; float2mpf yields the normalised tuple of the decoded "
+              "value and mpf2float(float2mpf(b)) = b (b != -0) when the context precision is at least p; inf and NaN map to themselves on these paths; "
+              "expansion2mpf/multiword2mpf return the exact sum when the partial sums fit the precision; mpf2expansion (for any rounding step "
+              "satisfying RSpec, shown satisfiable) and mpf2multiword (mantissa without an all-zero window) terminate with words whose exact sum "
+              "is the input and that convert back to the input tuple. The hand model is tied to the real functions by an exhaustive float16 "
+              "correspondence (65 536 patterns x 7 conversions), directed float32/float64 sweeps, seeded mpf values and a malformed-string stream "
+              "on every run; the property clauses are searched on the real code against Fraction/integer references.")
+LEVEL_NOTE = ("Partial exactly where the code violates a clause (known findings, each with a Lean negation witness): -0.0 loses its sign through "
+              "float2bin and float2mpf; mpf2expansion(nan) never terminates (proved for all formats); mpf2multiword maps inf/nan to [], fails for "
+              "max_length=1, and drops or double-counts bits when a mantissa window is all zero. RSpec for the real mpf2float is a hypothesis "
+              "(C15) checked by search. Trusted: Lean kernel; numpy scalar semantics; mpmath's kernel as ported (round-to-nearest, exact add then "
+              "normalise); mpf2expansion with base is not covered.")
 TECHNIQUE = "Lean 4 proofs over a bit-pattern / string / mpf-tuple model + exhaustive float16 line-protocol correspondence with the real helpers"
